@@ -1,0 +1,8 @@
+//go:build !verif
+
+package vm
+
+// verifPre and verifExit are observation points for the verification harness;
+// without the verif build tag they are empty, inlinable methods.
+func (vm *Vm) verifPre()  {}
+func (vm *Vm) verifExit() {}
